@@ -540,3 +540,75 @@ pub(crate) fn bspldnev_single(
 ) -> PyResult<f64> {
     Ok(bspldnev_single_f64(&x, i, &k, &t, m, org_k))
 }
+
+// verification hooks: Rust-callable wrappers of the Python-facing spline methods above
+#[cfg(feature = "verif")]
+macro_rules! verif_py_spline {
+    ($name: ident, $type: ident) => {
+        impl $name {
+            pub fn verif_py_new(k: usize, t: Vec<f64>, c: Option<Vec<$type>>) -> Self {
+                Self::new(k, t, c)
+            }
+            pub fn verif_py_inner(&self) -> &PPSpline<$type> {
+                &self.inner
+            }
+            pub fn verif_py_shape(&self) -> (usize, usize, Vec<f64>, Option<Vec<$type>>) {
+                (self.n().unwrap(), self.k().unwrap(), self.t().unwrap(), self.c().unwrap())
+            }
+            pub fn verif_py_csolve(&mut self, tau: Vec<f64>, y: Vec<$type>, left_n: usize, right_n: usize, allow_lsq: bool) -> Result<(), ()> {
+                self.csolve(tau, y, left_n, right_n, allow_lsq).map_err(|_| ())
+            }
+            pub fn verif_py_ppev_single(&self, x: Number) -> Result<$type, ()> {
+                self.ppev_single(x).map_err(|_| ())
+            }
+            pub fn verif_py_ppev_single_dual(&self, x: Number) -> Result<Dual, ()> {
+                self.ppev_single_dual(x).map_err(|_| ())
+            }
+            pub fn verif_py_ppev_single_dual2(&self, x: Number) -> Result<Dual2, ()> {
+                self.ppev_single_dual2(x).map_err(|_| ())
+            }
+            pub fn verif_py_ppev(&self, x: Vec<f64>) -> Result<Vec<$type>, ()> {
+                self.ppev(x).map_err(|_| ())
+            }
+            pub fn verif_py_ppdnev_single(&self, x: Number, m: usize) -> Result<$type, ()> {
+                self.ppdnev_single(x, m).map_err(|_| ())
+            }
+            pub fn verif_py_ppdnev_single_dual(&self, x: Number, m: usize) -> Result<Dual, ()> {
+                self.ppdnev_single_dual(x, m).map_err(|_| ())
+            }
+            pub fn verif_py_ppdnev_single_dual2(&self, x: Number, m: usize) -> Result<Dual2, ()> {
+                self.ppdnev_single_dual2(x, m).map_err(|_| ())
+            }
+            pub fn verif_py_ppdnev(&self, x: Vec<f64>, m: usize) -> Result<Vec<$type>, ()> {
+                self.ppdnev(x, m).map_err(|_| ())
+            }
+            pub fn verif_py_bsplev(&self, x: Vec<f64>, i: usize) -> Result<Vec<f64>, ()> {
+                self.bsplev(x, i).map_err(|_| ())
+            }
+            pub fn verif_py_bspldnev(&self, x: Vec<f64>, i: usize, m: usize) -> Result<Vec<f64>, ()> {
+                self.bspldnev(x, i, m).map_err(|_| ())
+            }
+            pub fn verif_py_eq(&self, other: &Self) -> bool {
+                self.__eq__(other).unwrap()
+            }
+            pub fn verif_py_copy(&self) -> Self {
+                self.__copy__()
+            }
+        }
+    };
+}
+#[cfg(feature = "verif")]
+verif_py_spline!(PPSplineF64, f64);
+#[cfg(feature = "verif")]
+verif_py_spline!(PPSplineDual, Dual);
+#[cfg(feature = "verif")]
+verif_py_spline!(PPSplineDual2, Dual2);
+
+#[cfg(feature = "verif")]
+pub fn verif_py_bsplev_single(x: f64, i: usize, k: usize, t: Vec<f64>, org_k: Option<usize>) -> f64 {
+    bsplev_single(x, i, k, t, org_k).unwrap()
+}
+#[cfg(feature = "verif")]
+pub fn verif_py_bspldnev_single(x: f64, i: usize, k: usize, t: Vec<f64>, m: usize, org_k: Option<usize>) -> f64 {
+    bspldnev_single(x, i, k, t, m, org_k).unwrap()
+}
